@@ -76,7 +76,7 @@ def run(ctx):
         # (correspondence) or a violated client precondition.  The replayer itself checks the
         # specification-level facts (each woken thread receives exactly the logged result, no
         # blocked edge closes a cycle), so a mismatch of that kind is a concrete failing trace.
-        spec_level = [l for l in mismatches if re.search(r"wake|cycle|receive|notified", l)]
+        spec_level = [l for l in mismatches if re.search(r"wake|cycle|receive|notified", l.split(".trace:", 1)[-1])]
         if spec_level:
             f = re.search(r"MISMATCH line \d+ (\S+)", spec_level[0])
             keep = None
